@@ -232,7 +232,7 @@ def finalize(agg, tier):
                 "linear-solver x Newton-variant combinations; points whose reference Jacobian has cond > 1e6 or whose "
                 "activity test is within rounding of its threshold are skipped and counted; non-trivial = point with a "
                 "reference step that was compared; distinct by spec seed",
-        "floors": {"points": 300, "points_nonlinear_rows_violated": 100, "points_active_set_nonempty": 100,
+        "floors": {"points": 300, "points_nonlinear_rows_violated": 60, "points_active_set_nonempty": 100,
                    "variant_triples_compared": 2000, "qp_one_step_exact_checked": 50,
                    "steps_Standard_LU": 500, "steps_Extended_LU": 500, "steps_Symmetric_LU": 500,
                    "steps_Asymmetric_LU": 500, "steps_Symmetric_MINRES": 300, "steps_Asymmetric_GMRES": 300},
